@@ -84,6 +84,10 @@ def Impl.emit (cfg : Cfg) (s : Impl) (e : Ev) : List SEv :=
       (if hd.num ≤ lpv then (match ans with | some rb => [SEv.served hd.num rb] | none => []) else [])
         ++ (s.step cfg e).2.map SEv.obs
     | _, _ => []
+  | .restart =>
+    match s.task with
+    | none => [SEv.restart]
+    | some _ => []
 
 def Impl.trace (cfg : Cfg) (s : Impl) : List Ev → List SEv
   | [] => []
@@ -99,6 +103,7 @@ def Impl.evOK (cfg : Cfg) (s : Impl) : Ev → Prop
     revOk = true ∧
     (cfg.numCheck = false → ∀ lpv hd tl rb, s.task = some lpv → s.node.chain = hd :: tl →
       hd.num ≤ lpv → ans = some rb → rb.num = hd.num)
+  | .restart => True
 
 def Impl.runOK (cfg : Cfg) (s : Impl) : List Ev → Prop
   | [] => True
@@ -534,6 +539,18 @@ theorem Sim.step (cfg : Cfg) {strict : Bool} {i : Impl} {sp : Spec} (h : Sim str
   | deliver req b c => exact h.step_deliver cfg hsc req b c hok
   | reorgDetected next latest => exact h.step_reorgDetected cfg next latest
   | iter ans revOk => exact h.step_iter cfg ans revOk hok
+  | restart =>
+    cases ht : i.task with
+    | some lpv =>
+      exact ⟨sp, by simp [Impl.emit, ht, Spec.run], by simpa [Impl.step, ht] using h⟩
+    | none =>
+      refine ⟨{ sp with pending := [] }, ?_, ?_⟩
+      · simp [Impl.emit, ht, Spec.run, Spec.step, h.owed]
+      · have hstep : (i.step cfg .restart).1 = { i with node := { i.node with reorg := none } } := by
+          simp [Impl.step, ht]
+        rw [hstep]
+        exact ⟨h.chain, h.ev, h.owed, rfl, h.linked, h.bound,
+          by intro lpv hl; simp [ht] at hl⟩
 
 theorem Impl.run_cons (cfg : Cfg) (i : Impl) (e : Ev) (es : List Ev) :
     Impl.run cfg i (e :: es) =
@@ -596,6 +613,9 @@ theorem Spec.step_chain {strict : Bool} {s s' : Spec} {e : SEv} (hst : Spec.step
   cases e with
   | served r b => left; simp only [Spec.step] at hst; cases hst; rfl
   | latest l => left; simp only [Spec.step] at hst; cases hst; rfl
+  | restart =>
+    left; simp only [Spec.step] at hst
+    split at hst <;> cases hst; rfl
   | obs o =>
     cases o with
     | stored n h => right; left; exact ⟨n, h, rfl⟩
